@@ -5,7 +5,7 @@ CONFIG = {
     "gen": [],
     "components": [{
         "name": "sim", "modules": ["Base.NumOps", "Model.Turn", "Model.Sim", "Model.SimCheck"],
-        "check": "check_case", "monitor": None, "model_out": "model_diff",
+        "check": "check_case", "monitor": "monitor_case", "model_out": "monitor_detail",
         "case_type": "case", "ops_path": None,
         "n_quick": 200, "n_thorough": 10000, "shard": 100,
     }],
